@@ -57,6 +57,10 @@ REASONS = [None, None, None, "", "use other", DEFAULT_DEPRECATION, 'quoted "why"
 STRINGS = ["plain", "", "two words", 'say "hi"', "back\\slash", "line\nbreak", "tab\tform\x0cfeed",
            "café", "\U0001F600 astral", "tes\t de\x0cault", " sep", "x" * 40, "null", "true", "RED"]
 BMP_STRINGS = [s for s in STRINGS if all(ord(c) < 0x10000 for c in s)]
+# items of *list* defaults that need an escape: rendered through json.dumps they read back (no finding
+# class on the unchanged code -- the finding string-default-needing-escapes is about top-level strings)
+ESCAPE_ITEMS = ['say "hi"', "back\\slash", "line\nbreak", "tab\tform\x0cfeed", '"', "\\", "cr\rlf\n", "b\x08ell\x07",
+                'mixed "q" \\ \n café']
 INTS = [0, 1, -1, 42, 2147483646, -2147483646, 1000000]
 FLOATS = [0.5, -1.25, 3.0, 1.5e-10, 2.5e+20, 100.0]  # no zero-padded exponent (lexer row 2 pending)
 IDS = ["abc", "12", "x y", ""]
@@ -135,10 +139,14 @@ def gen_value(ctx, t, top=True, in_list=False):
     if n == "Float":
         return rng.choice(FLOATS)
     if n == "String":
+        if in_list and rng.random() < 0.5:
+            return rng.choice(ESCAPE_ITEMS)
         return rng.choice(STRINGS)
     if n == "Boolean":
         return rng.random() < 0.5
     if n == "ID":
+        if in_list and rng.random() < 0.3:
+            return rng.choice(ESCAPE_ITEMS)
         return rng.choice(IDS)
     if n in ctx.enums:
         return rng.choice(ctx.enums[n])
@@ -163,11 +171,15 @@ def _gen_inputs(ctx, n_max, used_names, input_pool, default_p=0.6):
     for _ in range(rng.randint(0, n_max)):
         base = rng.choice(input_pool)
         t = _wrap(rng, base)
+        if rng.random() < 0.12:
+            # stratum: list (possibly nested) of strings, almost always with a default
+            base = rng.choice(["String", "String", "ID"])
+            t = rng.choice([["L", ["N", base]], ["NN", ["L", ["NN", ["N", base]]]], ["L", ["L", ["N", base]]]])
         iv = {"name": _uniq(rng, FIELD_STEMS, used), "desc": rng.choice(DESCRIPTIONS), "type": t,
               "has_default": False, "default": None}
         if base in ctx.customs:
             iv["custom"] = True
-        if rng.random() < default_p:
+        if rng.random() < (0.9 if t[0] != "N" and base in ("String", "ID") else default_p):
             iv["has_default"] = True
             iv["default"] = gen_value(ctx, t)
         out.append(iv)
@@ -488,7 +500,16 @@ def _special_enum_internal():
     return Schema(q)
 
 
-SPECIAL = {"python_name": _special_python_name, "pinned_test": _special_pinned_test,
+def _special_list_escapes():
+    q = ObjectType("Query", [Field("f", Int, [
+        Argument("a", ListType(String), default_value=['say "hi"', "back\\slash", "line\nbreak", "plain"]),
+        Argument("b", ListType(ListType(String)), default_value=[['"'], ["\\", "tab\tform\x0cfeed"], []]),
+        Argument("c", ListType(ID), default_value=['i"d', "7"]),
+        Argument("d", ListType(String), default_value=["café", None, ""])])])
+    return Schema(q)
+
+
+SPECIAL = {"list_escapes": _special_list_escapes, "python_name": _special_python_name, "pinned_test": _special_pinned_test,
            "enum_internal": _special_enum_internal}
 
 
